@@ -183,6 +183,24 @@ def run_fd(pid, tier, seed, replay=None):
     rnd = random.Random(seed)
     n = 500 if tier == "quick" else 5000
     cases = build_cases(rnd, n)
+    # products over non-negative domains that contain zero, and other sign patterns of timesfd / plusfd / minusfd
+    for _ in range(n // 4):
+        lo1, lo2 = rnd.choice([(0, 0), (0, 1), (1, 0), (-2, 0), (0, -2), (-3, -1)])
+        d1 = list(range(lo1, lo1 + rnd.randint(2, 5)))
+        d2 = list(range(lo2, lo2 + rnd.randint(1, 4)))
+        rel = rnd.choice(["timesfd", "timesfd", "plusfd", "minusfd"])
+        third = rnd.choice([0, 0, rnd.randint(0, 6), "h"])
+        names = ["q", "r"] + (["h"] if third == "h" else [])
+        doms = {"q": d1, "r": d2}
+        body = [["dom", "q", ["i", d1[0], d1[-1]]], ["dom", "r", ["i", d2[0], d2[-1]]]]
+        if third == "h":
+            d3 = list(range(0, rnd.randint(1, 4)))
+            doms["h"] = d3
+            body.append(["dom", "h", ["i", d3[0], d3[-1]]])
+        body.append(["rel", rel, "q", "r", third])
+        if third == "h":
+            body = [["fresh", ["h"]] + body]
+        cases.append(mk_case([], ["q", "r"], body, spec=(names, doms, [[rel, "q", "r", third]]), mode="bag_terms", budget=20000, maxans=200))
     # corpus
     cases.append(mk_case([], ["q", "r"], [["dom", "q", ["i", 1, 3]], ["rel", "plusfd", "q", "q", "q"], ["dom", "r", ["i", 0, 0]]],
                          spec=(["q", "r"], {"q": [1, 2, 3], "r": [0]}, [["plusfd", "q", "q", "q"]]), mode="bag_terms"))
@@ -240,6 +258,19 @@ def run_c19(tier, seed, replay=None):
         rnd.shuffle(goals)
         cases.append(mk_case([], ["q", "r", "t"], goals, zchain=True, mode="bag_terms"))
 
+    # systems solved by propagation alone (no unification after the last constraint): every operand position as the solved one
+    for _ in range(300 if tier == "quick" else 3000):
+        a, b = rnd.randint(-3, 3), rnd.randint(-3, 3)
+        pend = rnd.choice([["rel", "plusz", "r", a, "q"], ["rel", "timesz", "r", 2, "q"], ["rel", "plusz", "r", "r", "q"], ["rel", "plusz", a, "r", "q"],
+                           ["rel", "timesz", "q", "r", "t"], ["rel", "plusz", "q", "t", "r"]])
+        rel = rnd.choice(["plusz", "timesz"])
+        x = rnd.randint(-3, 3)
+        res_ = a + x if rel == "plusz" else a * x
+        solver = rnd.choice([["rel", rel, a, "r", res_], ["rel", rel, "r", a, res_] if rel == "plusz" or a != 0 else ["rel", rel, a, "r", res_],
+                             ["rel", rel, a, x, "r"]])
+        goals = [pend, solver] if rnd.random() < 0.7 else [solver, pend]
+        cases.append(mk_case([], ["q", "r", "t"], goals, zchain=True, zsolve=True, mode="bag_terms"))
+
     def oracle(cs, impl, model):
         fails = []
         for k, (c, i) in enumerate(zip(cs, impl)):
@@ -247,6 +278,33 @@ def run_c19(tier, seed, replay=None):
                 if i.error.startswith("panic"):
                     fails.append({"case_index": k, "what": "plusz/timesz panicked: %s" % i.error})
                 continue
+            if c.get("zsolve") and i.end == "done":
+                # solve the small system by brute force over -40..40 and compare the determined variables
+                vars_ = ["q", "r", "t"]
+                sols = []
+                for q_ in range(-20, 21):
+                    for r_ in range(-20, 21):
+                        env = {"q": q_, "r": r_, "t": None}
+                        ok, tvals = True, None
+                        for g in c["body"]:
+                            ops = g[2:]
+                            if "t" in ops:
+                                continue
+                            x_, y_, z_ = [val(env, o) for o in ops]
+                            if (x_ + y_ if g[1] == "plusz" else x_ * y_) != z_:
+                                ok = False
+                                break
+                        if ok:
+                            sols.append((q_, r_))
+                uses_t = any("t" in g[2:] for g in c["body"])
+                if not uses_t:
+                    if not sols and i.answers:
+                        fails.append({"case_index": k, "what": "the system has no integer solution but an answer was returned: %s" % (i.answers[0][0],)})
+                    for a_ in i.answers:
+                        for idx, name in enumerate(["q", "r"]):
+                            vals = {s_[idx] for s_ in sols}
+                            if len(vals) == 1 and len(sols) <= 41 * 41 and a_[0][idx].lstrip("-").isdigit() is False and len({s_ for s_ in sols}) == 1:
+                                fails.append({"case_index": k, "what": "%s is determined (= %d) by the posted constraints but was left unbound" % (name, list(vals)[0])})
             if "zspec" in c:
                 rel, vals, mask = c["zspec"]
                 a, b, w = vals["q"], vals["r"], vals["t"]
